@@ -58,7 +58,10 @@ fn hit(point: &str) {
     let mut g = PARK.lock().unwrap();
     let Some(p) = g.as_mut() else { return };
     let mut park_here = false;
-    if let Some(plan) = p.plan.get_mut(&name) {
+    // a plan for "*" applies to whichever thread reaches the point first
+    let key = if p.plan.contains_key(&name) { name.clone() } else { "*".to_string() };
+    let name = if key == "*" { "*".to_string() } else { name };
+    if let Some(plan) = p.plan.get_mut(&key) {
         if let Some(pos) = plan.iter().position(|(pt, _)| pt == point) {
             if plan[pos].1 <= 1 {
                 plan.remove(pos);
@@ -86,6 +89,22 @@ fn hit(point: &str) {
 
 extern "C" fn write_hook(_name: *const c_char, _len: usize) {
     hit("io.write");
+}
+
+pub fn park_plan(t: &str, point: &str, nth: u32) {
+    with_park(|p| p.plan.entry(t.to_string()).or_default().push((point.to_string(), nth)));
+}
+
+pub fn wait_parked(t: &str, ms: u64) -> String {
+    let mut th = Threads::default();
+    th.wait(t, ms)
+}
+
+pub fn release(t: &str) {
+    with_park(|p| {
+        p.released.insert(t.to_string(), true);
+    });
+    PARK_CV.notify_all();
 }
 
 pub fn install(io: Option<&crate::store::IoTrace>) {
@@ -151,10 +170,11 @@ impl Threads {
     /// wait until the thread is parked or has finished
     pub fn wait(&mut self, t: &str, ms: u64) -> String {
         let deadline = Instant::now() + Duration::from_millis(ms);
-        let Some(w) = self.workers.get(t) else { return "no-such-thread".into() };
+        // threads the harness did not spawn (the store's background thread) can only be seen parking
+        let w = self.workers.get(t);
         let mut g = PARK.lock().unwrap();
         loop {
-            if let Some(r) = w.result.lock().unwrap().clone() {
+            if let Some(r) = w.and_then(|w| w.result.lock().unwrap().clone()) {
                 return format!("done {}", r);
             }
             if let Some(p) = g.as_ref() {
